@@ -134,6 +134,7 @@ type Netceptor struct {
 	reservedServices         map[string]func(*MessageData) error
 	serviceAdsLock           *sync.RWMutex
 	serviceAdsReceived       map[string]map[string]*ServiceAdvertisement
+	serviceAdsWithdrawn      map[string]map[string]time.Time
 	sendServiceAdsChan       chan time.Duration
 	backendWaitGroup         sync.WaitGroup
 	backendCount             int
@@ -332,6 +333,7 @@ func NewWithConsts(ctx context.Context, nodeID string,
 		nameHashes:               make(map[uint64]string),
 		serviceAdsLock:           &sync.RWMutex{},
 		serviceAdsReceived:       make(map[string]map[string]*ServiceAdvertisement),
+		serviceAdsWithdrawn:      make(map[string]map[string]time.Time),
 		sendServiceAdsChan:       nil,
 		backendWaitGroup:         sync.WaitGroup{},
 		backendCount:             0,
@@ -712,11 +714,13 @@ func (s *Netceptor) RemoveLocalServiceAdvertisement(service string) error {
 	}
 	connType := n[service].ConnType
 	delete(n, service)
+	withdrawnAt := time.Now()
+	s.noteServiceWithdrawn(s.nodeID, service, withdrawnAt)
 	sa := &serviceAdvertisementFull{
 		ServiceAdvertisement: &ServiceAdvertisement{
 			NodeID:   s.nodeID,
 			Service:  service,
-			Time:     time.Now(),
+			Time:     withdrawnAt,
 			ConnType: connType,
 			Tags:     nil,
 		},
@@ -1755,7 +1759,13 @@ func (s *Netceptor) handleServiceAdvertisement(data []byte, receivedFrom string)
 	if keepCur {
 		return nil
 	}
+	if withdrawnAt, ok := s.serviceAdsWithdrawn[si.NodeID][si.Service]; ok && !si.Time.After(withdrawnAt) {
+		// Not newer than a withdrawal already processed: an advertisement sent before the service was
+		// withdrawn must not bring it back, and a withdrawal seen before is not relayed again.
+		return nil
+	}
 	if si.Cancel {
+		s.noteServiceWithdrawn(si.NodeID, si.Service, si.Time)
 		delete(s.serviceAdsReceived[si.NodeID], si.Service)
 		if len(s.serviceAdsReceived[si.NodeID]) == 0 {
 			delete(s.serviceAdsReceived, si.NodeID)
@@ -1766,6 +1776,16 @@ func (s *Netceptor) handleServiceAdvertisement(data []byte, receivedFrom string)
 	s.flood(data, receivedFrom)
 
 	return nil
+}
+
+// Remembers when a service was withdrawn. The caller must hold serviceAdsLock.
+func (s *Netceptor) noteServiceWithdrawn(nodeID string, service string, when time.Time) {
+	w, ok := s.serviceAdsWithdrawn[nodeID]
+	if !ok {
+		w = make(map[string]time.Time)
+		s.serviceAdsWithdrawn[nodeID] = w
+	}
+	w[service] = when
 }
 
 // Goroutine to send data from the backend to the connection's ReadChan.
